@@ -310,16 +310,20 @@ func randomPrimeInRangeRule(P *Program, R *Report, rule string) {
 	}
 	R.decide(rule, "common.RandomPrimeInRange:result-term", "the returned candidate is exactly 2^start + offset, offset decoded from the random byte buffer", okTerm && n > 0, strings.Join(terms, " | "), P.Pos(g.Pos()))
 	// buffer size and masking depend on length only
-	sizeOK := false
+	sizeOK, sizeNote := false, ""
 	allInstrs(g, func(i ssa.Instruction) {
 		if ms, ok := i.(*ssa.MakeSlice); ok {
 			if a, ok := affineOf(ms.Len); ok && a.String() == "(arg#2+7)/8" || a.String() == "(7+arg#2)/8" {
 				sizeOK = true
+			} else if d := strings.ReplaceAll(desc(ms.Len), "(7+arg#2)", "(arg#2+7)"); d == "((arg#2+7)/8)" {
+				sizeOK = true // computed by a helper
+			} else {
+				sizeNote = d
 			}
 		}
 	})
-	R.decide(rule, "common.RandomPrimeInRange:buffer", "the offset buffer has ceil(length/8) bytes", sizeOK, "", P.Pos(g.Pos()))
-	maskOK := false
+	R.decide(rule, "common.RandomPrimeInRange:buffer", "the offset buffer has ceil(length/8) bytes", sizeOK, sizeNote, P.Pos(g.Pos()))
+	maskOK, maskNote := false, ""
 	allInstrs(g, func(i ssa.Instruction) {
 		st, ok := i.(*ssa.Store)
 		if !ok {
@@ -327,13 +331,17 @@ func randomPrimeInRangeRule(P *Program, R *Report, rule string) {
 		}
 		if desc(st.Addr) == "makeslice[0]" {
 			if b, ok := st.Val.(*ssa.BinOp); ok && b.Op.String() == "&" {
-				if dependsOn(P, b, func(d string) bool { return d == "arg#2" }) {
+				// (the mask is a function of `length` alone - not of `start`; helpers are looked into, not trusted by their arguments)
+				leaves := map[string]bool{}
+				preciseLeaves(b, 3, map[ssa.Value]bool{}, leaves)
+				if dependsOn(P, b, func(d string) bool { return d == "arg#2" }) && leaves["arg#2"] && !leaves["arg#1"] {
 					maskOK = true
 				}
+				maskNote = strings.Join(sortedKeys(leaves), ",")
 			}
 		}
 	})
-	R.decide(rule, "common.RandomPrimeInRange:mask", "the top byte of the offset is masked down to `length` bits", maskOK, "", P.Pos(g.Pos()))
+	R.decide(rule, "common.RandomPrimeInRange:mask", "the top byte of the offset is masked down to `length` bits", maskOK, "depends on "+maskNote, P.Pos(g.Pos()))
 	mp(P, R, rule, "common.RandomPrimeInRange:prime-tested", "a value is returned only after ProbablyPrime(k>=20) succeeded on it", g, AcceptNilErr(1), &MustPass{Match: func(a Atom) bool {
 		c, _ := callAndResult(a.V)
 		if c == nil || a.Want != True || bigMethod(c) != "ProbablyPrime" {
